@@ -472,7 +472,10 @@ pub fn check_onehop(b0: &[u8]) -> Obs {
             None
         }
     };
-    obs["vexp"] = json!(vexp.map(time_to_model));
+    obs["exp"] = match vexp {
+        Some(x) => json!({"ok": true, "v": time_to_model(x)}),
+        None => json!({"ok": false, "v": 0}),
+    };
     let m0: OneHopPath = v0.to_model();
     match m0.try_encode_to_vec() {
         Ok(e) if e == b0 => {}
@@ -507,7 +510,7 @@ pub fn check_onehop(b0: &[u8]) -> Obs {
         }
         (Err(m), _) | (_, Err(m)) => pvs.push(pv(format!("Panic:onehop.try_reverse:{cls}"), m.clone())),
     }
-    obs["rev"] = json!({"ok": rv.clone().ok(), "cd": b1[0] & 1 != 0, "first_in": u16::from_be_bytes([b1[10], b1[11]])});
+    obs["rev"] = json!({"ok": rv.clone().ok(), "cd": b1[0] & 1 != 0, "first": u16::from_be_bytes([b1[12], b1[13]]) as i64 - 200});
     // wrappers: the view keeps a one-hop path, the model turns it into a standard path (documented);
     // the answers must agree on Ok/Err and on the info/hop contents
     let dv0 = ScionDpPathView::OneHop(v0.clone());
@@ -613,4 +616,31 @@ pub fn cell_header(cell: &Value) -> HdrC {
         inf: (0..cd.len()).map(|j| small_inf(j as u32 + 1, cd[j], ts[j] as u32, &[])).collect(),
         hop: (0..tot as usize).map(|k| small_hop(k as u32 + 1, exp[k] as u8, false, false)).collect(),
     }
+}
+
+/// Build the bytes of a TLC one-hop cell and compare the observation with the expectation.
+pub fn onehop_cell(cell: &Value) -> (Vec<u8>, Obs, Vec<Value>) {
+    let g = |k: &str| cell[k].as_u64().unwrap_or(0);
+    let mut h1 = small_hop(1, g("e1") as u8, false, false);
+    h1.cin = g("in1") as u16;
+    let mut h2 = small_hop(2, g("e2") as u8, false, false);
+    h2.cin = g("in2") as u16;
+    let b = onehop_bytes(cell["cd"].as_bool().unwrap_or(false), false, 0x1000, TS_BASE + g("ts") as u32, &h1, &h2);
+    let o = check_onehop(&b);
+    let mut mis = Vec::new();
+    for (name, spec, real) in [
+        ("rev", &cell["rev"], &o.obs["rev"]),
+        ("exp", &cell["exp"], &o.obs["exp"]),
+        ("fe", &cell["fe"], &o.obs["fe"]),
+        ("li", &cell["li"], &o.obs["li"]),
+    ] {
+        // an expiry the specification marks as overflowing has no expected value
+        if name == "exp" && spec["ok"] == false && real["ok"] == false {
+            continue;
+        }
+        if spec != real {
+            mis.push(json!({"field": name, "spec": spec, "real": real}));
+        }
+    }
+    (b, o, mis)
 }
